@@ -453,9 +453,10 @@ class _Gen:
 
     def s_array_decl(self):
         base = self.scalar_type(["int", "uint", "float", "angle", "bool", "complex"], 0.7)
-        dims = [self.ch([["lit", "2"], ["lit", "3"], ["id", "n"]]) for _ in range(self.ch([1, 2]))]
+        # up to the seven dimensions the language allows
+        dims = [self.ch([["lit", "2"], ["lit", "3"], ["id", "n"]]) for _ in range(self.ch([1, 1, 2, 2, 3, 4, 5, 6, 7]))]
         init = None
-        if self.p(0.5):
+        if self.p(0.5) and len(dims) <= 2:
             row = lambda: ["arraylit", [self.simple() for _ in range(self.ch([1, 2, 3]))]]
             init = row() if len(dims) == 1 else ["arraylit", [row() for _ in range(2)]]
         return self.E("decl", "CLASSICAL_DECLARATION_STATEMENT",
